@@ -75,3 +75,14 @@ CLAIMS["C12"] = (
     "Abstract mode (opaque objects; attribute stores tracked by a write log, unknown callees havoc it); equality of *results* across sessions additionally needs determinism of the codecs (assumed). Fixed defects FX03/FX04 are recorded in known_findings.json.",
     "DESIGN.md 7 (C12)",
 )
+
+CLAIMS["C11"] = (
+    "Encryption plumbing as contracts on the real code: AESCompressor.compress/flush and AESDecompressor.decompress proved for EVERY sequence of chunk sizes (every plaintext/ciphertext byte reaches the cipher exactly once, in order, in whole blocks; fewer than 16 bytes pending; zero padding on flush; the returned bytes are exactly the cipher's output - no plaintext path); a password (also the empty string) without explicit filters selects the encrypting default chain; header-encryption flag plumbing (set_encrypted_header / set_encoded_header_mode / _write_header forwards both flags); needs_password reports the reader's flag.",
+    "Assumed: AES-CBC (Cryptodome) as a stream function, SHA-256/KDF strength, randomness of get_random_bytes, and that a wrong key yields bytes whose CRC differs (probability 2^-32). Secrecy of ciphertext and absence of plaintext in produced bytes as an *observation* are not contracts.",
+    "DESIGN.md 7 (C11)",
+)
+CLAIMS["C01"] = (
+    "Links of the round trip proved for all inputs on py7zr's own code: AES residue buffering for every chunking (also I/O block sizes below 16), CRC accumulation (calculate_crc32 for every block size), Worker.decompress delivers exactly the declared size and writes every decoded chunk once in order, names in stored order (namelist), the commit protocol of close() (every creating mode writes the header, incl. mode 'x').",
+    "Codecs (lzma, bz2, zlib, zstd, ppmd, brotli, bcj), AES-CBC and CRC32 are assumed stream transducers; end-to-end chaining of the proved links is a written argument (DESIGN.md 7), not one theorem; SevenZipCompressor/SevenZipDecompressor chain contracts are listed in the evidence where present.",
+    "DESIGN.md 7 (C01)",
+)
